@@ -9,8 +9,8 @@ CHECKS = {
     'C01': ('differential PBT: zvariant encoder vs independent D-Bus reference marshaller (proptest byte-string generator, shrinking)',
             'Exploration: generated (signature, value, endian, offset, route) cases; zvariant bytes must be strictly decodable by an independent reference unmarshaller, denote the input value and re-marshal byte-identically; size/fd counts compared. Finds any wrong padding/length/terminator rule the encoder and decoder share.',
             'Trusted: refmodel (own D-Bus marshaller written from the spec), proptest, generator bounds (<= 24 nodes, strings <= 262 B). No NaN as dict key.', '7/C01'),
-    'C02': ('round-trip PBT over dynamic Value/OwnedValue in D-Bus and GVariant formats',
-            'Exploration: decode(encode(v)) == v (bitwise f64, dict as multiset) and consumed == encoded length over generated values, both formats, both endians, offsets 0..15.',
+    'C02': ('round-trip PBT over dynamic Value/OwnedValue and a gallery of typed Rust values in D-Bus and GVariant formats',
+            'Exploration: decode(encode(v)) == v (bitwise f64, dict as multiset) and consumed == encoded length over generated values, both formats, both endians, offsets 0..15; typed values from a gallery of std / derived types (options as arrays incl. collections of 33..45 mostly-None options, long collections); structures whose size lies in the last 8 bytes below the 255 / 65535 framing-offset thresholds at every starting offset, alone and as second array element.',
             'Trusted: value bridge RVal<->zvariant::Value; generator bounds.', '7/C02'),
     'C03': ('differential PBT + role-aware mutation: zvariant D-Bus decoder vs independent strict validating unmarshaller',
             'Exploration in both directions (false accept and false reject): valid reference encodings (incl. values nested around the 32/32/64 limits, through variants and past completed siblings), 16 kinds of role-aware mutations, double mutations and random bytes; Ok <=> Accept, equal value, equal consumed length. Thorough tier adds a coverage-guided libFuzzer campaign (target zv_dbus_diff, same oracle inside the target).',
@@ -103,7 +103,7 @@ CHECKS = {
             'Exploration over schedules: handlers that add/remove objects and emit signals (methods, getters, setters; spawn on/off) and calls fed 0..7 steps after at() returned; every call must be answered before the system comes to rest; handlers that remove their own object, with and without the read-only variant; a &mut self handler that awaits before registering; Introspect, GetManagedObjects (object manager above the object) ObjectServer::interface() lookups and the registration of an object manager from another task running concurrently with them; the first call after on-demand creation behind a burst of signals longer than a queue (65..90).',
             'Trusted: quiescence detection of the harness scheduler (all actors pending, no wake-up pending). The loss of calls right after on-demand creation was a known finding and is repaired (known-findings.txt).', '6, 7/C30'),
     'C38': ('fault enumeration: EOF / I/O error injected at every inbound byte position and at every write call of scripted sessions, plus random sessions and schedules',
-            'Fault enumeration: every fault point of 6/40 fixed sessions (all byte positions x {EOF, error}, all write calls) and random further sessions; pending calls error out, streams yield exactly the completed messages then end (also a lazily polled stream whose queue is exactly full when the transport fails), later work fails promptly, no panic, no spinning on end-of-file.',
+            'Fault enumeration: every fault point of 6/40 fixed sessions (all byte positions x {EOF, error}, all write calls) and random further sessions; pending calls error out, streams yield exactly the completed messages then end (also a lazily polled stream whose queue is exactly full when the transport fails), later work fails promptly, no panic, no spinning on end-of-file; sessions contain messages of unknown type (skipped) and, in some, a caching proxy whose GetAll is pending when the transport fails (building it must end with an error).',
             'Trusted: scripted socket + scheduler; a write fault is modelled as the transport failing in both directions.', '7/C38'),
     'C39': ('schedule-exploring PBT over handle sets and drop orders; gated handlers for graceful shutdown',
             'Exploration: socket halves dropped iff the last of a generated set of handles (clones, streams, proxies, signal streams; with/without object server) is dropped; graceful_shutdown pending while handlers are gated, complete (replies written, transport closed) afterwards, also when two handles shut down at once. Drop scenarios include a never-polled full stream the reader stalls on and an object server first used while handles are being dropped.',
